@@ -182,7 +182,7 @@ class BuildError(Exception):
     pass
 
 
-def harness(name, flavor="plain", extra_flags=(), with_main=False, link_engine=True):
+def harness(name, flavor="plain", extra_flags=(), with_main=False, link_engine=True, exclude=()):
     """Compile /verif/harness/<name>.cpp against the working tree and link with the engine objects."""
     comp, flags = FLAVORS[flavor]
     d, objs = engine_objects(flavor)
@@ -195,7 +195,7 @@ def harness(name, flavor="plain", extra_flags=(), with_main=False, link_engine=T
                    "-I", os.path.join(REPO, "tools/regression"), "-I", os.path.join(VERIF, "harness"),
                    "-o", exe + ".tmp"] + flags + list(extra_flags)
             if link_engine:
-                cmd += objs
+                cmd += [o for o in objs if os.path.basename(o) not in exclude]
             if with_main:
                 cmd += [os.path.join(d, "main.o")]
             cmd += ["-lpthread"]
@@ -567,3 +567,27 @@ def model_driver():
                 raise BuildError("OCaml build failed:\n" + (o + e)[-3000:])
             os.rename(os.path.join(d, "driver.tmp"), exe)
     return exe
+
+
+def run_lines_robust(exe, lines, timeout=900, shards=1, env=None, max_retry=40):
+    """Like run_lines, but when a process dies the lines without a result are re-run one process per
+    line (so the crashing input is identified and the others still get their results).
+    Returns (crashed: list of (index, rc, stderr)), results)."""
+    rc, res, err = run_lines(exe, lines, timeout=timeout, shards=shards, env=env)
+    res = list(res) + [None] * (len(lines) - len(res))
+    crashed = []
+    if rc != 0 or any(r is None for r in res):
+        missing = [i for i, r in enumerate(res) if r is None]
+        # the first missing line of each shard is the likely culprit: try those first, then the rest
+        budget = max_retry
+        for i in missing:
+            if budget <= 0:
+                break
+            r1, o1, e1 = sh([exe], input=lines[i] + "\n", timeout=120, env=env)
+            if r1 == 0 and o1.splitlines():
+                res[i] = o1.splitlines()[0]
+            else:
+                crashed.append((i, r1, e1[-1500:]))
+                budget -= 1
+        # whatever is still missing and was not retried stays None
+    return crashed, res
